@@ -77,8 +77,12 @@ static void sf_append(SFile *f, const void *p, size_t n)
     memcpy(f->data + f->n, p, n); f->n += n; f->data[f->n] = 0;
 }
 
+static void simfs_drop_leaked(void);
 void simfs_reset(void)
 {
+    /* descriptors and streams the previous plan's code left open must not leak into this plan's count (or keep
+       pointing at files that are freed below): descriptor-only streams are dropped, leaked FILE streams are detached */
+    simfs_drop_leaked();
     for (SFile *f = g_files, *nx; f; f = nx) { nx = f->next; sim_xfree(f->path); sim_xfree(f->data); sim_xfree(f); }
     g_files = NULL;
     sim_xfree(g_stdin_file.data); sim_xfree(g_stdout_file.data); sim_xfree(g_stderr_file.data);
@@ -186,6 +190,15 @@ static int ck_seek(void *ck, off64_t *off, int whence)
 #define SIM_FD0 1000
 #define SIM_NFD 64
 static Stream *g_fd[SIM_NFD];
+static void simfs_drop_leaked(void)
+{
+    for (int i = 0; i < SIM_NFD; i++) if (g_fd[i]) {
+        Stream *st = g_fd[i]; g_fd[i] = NULL;
+        if (st->fd_only) { for (Stream **pp = &g_streams; *pp; pp = &(*pp)->lnext) if (*pp == st) { *pp = st->lnext; break; } sim_xfree(st); }
+    }
+    for (Stream *st = g_streams; st; st = st->lnext) if (!st->std) st->f = NULL;
+    g_open_streams = 0;
+}
 static int fd_alloc(Stream *st) { for (int i = 0; i < SIM_NFD; i++) if (!g_fd[i]) { g_fd[i] = st; return SIM_FD0 + i; } errno = EMFILE; return -1; }
 static Stream *fd_get(int fd) { return fd >= SIM_FD0 && fd < SIM_FD0 + SIM_NFD ? g_fd[fd - SIM_FD0] : NULL; }
 static void fd_drop(Stream *st) { for (int i = 0; i < SIM_NFD; i++) if (g_fd[i] == st) g_fd[i] = NULL; }
